@@ -428,6 +428,49 @@ func streamReg(o opts) {
 // ------------------------------------------------------------------ callbacks (C20)
 const sidCb = 20
 
+// cbCloses (C07, C08): an expiry callback that calls Close, and a Close issued while a callback is still running: both
+// must return (callbacks run on their own goroutine with no lock held; Close does not wait for them). Real clock.
+func cbCloses(m *meta, r *rand.Rand, round int) {
+	kioshun.VerifSetClock(false, 0)
+	pol := pick(r, []kioshun.EvictionPolicy{kioshun.LRU, kioshun.SieveTinyLFU, kioshun.FIFO})
+	ctx := fmt.Sprintf("callback scenario close-from-callback round %d policy %v", round, pol)
+	watch(ctx)
+	defer unwatch()
+	// (a) Close called from the callback
+	c, err := kioshun.New[int, int](kioshun.Config{MaxSize: 8, ShardCount: 2, EvictionPolicy: pol})
+	must(err)
+	returned := make(chan struct{})
+	c.SetWithCallback(1, 10, 2*time.Millisecond, func(k, v int) { c.Close(); close(returned) })
+	select {
+	case <-returned:
+	case <-time.After(3 * time.Second):
+		for _, p := range []string{"C07", "C08"} {
+			m.violate(p, ctx+": Close called from an expiry callback did not return within 3 s", ctx)
+		}
+	}
+	// (b) Close while a callback is blocked
+	c2, err := kioshun.New[int, int](kioshun.Config{MaxSize: 8, ShardCount: 2, EvictionPolicy: pol})
+	must(err)
+	gate, entered := make(chan struct{}), make(chan struct{})
+	c2.SetWithCallback(1, 10, 2*time.Millisecond, func(k, v int) { close(entered); <-gate })
+	select {
+	case <-entered:
+		done := make(chan struct{})
+		go func() { c2.Close(); close(done) }()
+		select {
+		case <-done:
+		case <-time.After(3 * time.Second):
+			for _, p := range []string{"C07", "C08"} {
+				m.violate(p, ctx+": Close did not return within 3 s while an expiry callback was still running", ctx)
+			}
+		}
+	case <-time.After(2 * time.Second):
+		m.count("cb_closes_callback_never_ran")
+	}
+	close(gate)
+	m.count("scenario_close_from_callback")
+}
+
 // cbRejected (C20): a SetWithCallback whose write TinyLFU declines stores nothing and must schedule nothing, even with a
 // TTL so short that the deadline has passed before the call returns (real clock; monitor only).
 func cbRejected(m *meta, r *rand.Rand, round int) {
@@ -502,6 +545,10 @@ func streamCb(o opts) {
 		kind := round % 20
 		if kind == 19 {
 			cbRejected(m, r, round)
+			continue
+		}
+		if kind == 18 {
+			cbCloses(m, r, round)
 			continue
 		}
 		if kind > 14 {
